@@ -18,6 +18,8 @@ Step ==
            hasBase == Len(e.baseRun) = 1 /\ e.baseRun[1].err = ""
        IN
        /\ Check("C05.static-no-panic", c, l, \A k \in Runs : ~e.runs[k].panic)
+       /\ Check("C05.static-terminates", c, l, \A k \in Runs : ~e.runs[k].hang)
+       /\ Check("C05.root-terminates", c, l, \A k \in Runs : Ok(k) => e.runs[k].roots = "ok")
        (* C03, C08, C11: every result, whatever the input *)
        /\ Check("C03.links-point-into-result", c, l, All(LAMBDA u : C03_LinksPointIntoResult(u.res)))
        /\ Check("C03.required-references-never-nil", c, l, All(LAMBDA u : C03_RequiredNeverNil(u.res)))
@@ -40,6 +42,7 @@ Step ==
        /\ Check("C08.row-order-irrelevant", c, l, (rel = "C08.permutation" /\ hasBase) => All(LAMBDA u : u.res = e.baseRun[1].res))
        /\ Check("C09.rejected-rows-inert", c, l, (rel = "C09.inert" /\ hasBase) => All(LAMBDA u : C09_Inert(u.res, e.baseRun[1].res)))
        /\ Check("C10.blank-absent-default-equivalent", c, l, (rel = "C10.equal" /\ hasBase) => All(LAMBDA u : u.res = e.baseRun[1].res))
+       /\ Check("C10.default-values", c, l, (rel = "C10.equal" /\ Ok(1)) => C01_Transcribed(feed, e.opts.inherit, e.runs[1].res))
        /\ Check("C10.inheritance-changes-only-that", c, l, (rel = "C10.inherit" /\ hasBase) => All(LAMBDA u : C10_InheritOnlyThat(u.res, e.baseRun[1].res)))
        /\ Check("relation-base-parses", c, l, (rel # "" /\ rel # "C01.wellformed" /\ Len(e.baseRun) = 1) => (e.baseRun[1].err = "" /\ Ok(1)))
        /\ drift' = drift + (IF Ok(1) /\ e.runs[1].res = Result(ParseFeed(feed, e.opts.inherit)) THEN 0 ELSE IF Ok(1) THEN 1 ELSE 0)
